@@ -63,6 +63,16 @@ def e2e_one(args):
     return r
 
 
+CAP = 12
+
+
+def capped(ck, cat, key, what, replay):
+    n = ck.extra.setdefault('failures_by_category', {})
+    n[cat] = n.get(cat, 0) + 1
+    if n[cat] <= CAP:
+        ck.fail(key, what, replay)
+
+
 def run(ck):
     b = ck.build('plain')
     ck.gen(['gen_nvmconsts', 'gen_runnerflags'])
@@ -118,10 +128,10 @@ def run(ck):
         if w == '1':
             dist['wf_modules'] += 1
             if loaded == 'NULL' or body_of_dump(loaded) != body_of_dump(built):
-                ck.fail('c10:roundtrip:' + nvmlib.fhash(dsc.encode()), 'deserialize(serialize(m)) differs from m on the implementation',
+                capped(ck, 'roundtrip', 'c10:roundtrip:' + nvmlib.fhash(dsc.encode()), 'deserialize(serialize(m)) differs from m on the implementation',
                         dict(engine='nvm_probe(asan)', input='rt ' + dsc[:6000], built=built[:2000], loaded=loaded[:2000]))
             if hx2 != hx:
-                ck.fail('c10:idempotent:' + nvmlib.fhash(dsc.encode()), 'serialize(deserialize(serialize(m))) differs from serialize(m) on the implementation',
+                capped(ck, 'idempotent', 'c10:idempotent:' + nvmlib.fhash(dsc.encode()), 'serialize(deserialize(serialize(m))) differs from serialize(m) on the implementation',
                         dict(engine='nvm_probe(asan)', input='rt ' + dsc[:6000], first=hx[:2000], second=hx2[:2000]))
     if len(impl) != len(lines):
         ck.fail('c10:linecount', 'probe answered %d of %d lines' % (len(impl), len(lines)), dict(correspondence='nvm_probe vs nvref_c10'))
